@@ -251,4 +251,18 @@ CLAIMS = {
         "note": "no unbounded claim; the test factory (insertion, deletion and change of statements, 2.7k lines of libcst "
                 "manipulation) and local search are not covered; 'valid Python' is checked by parsing the rendered test case.",
     },
+    "C22": {
+        "category": "other",
+        "text": "Bounded stand-in (not a proof): the real generator._minimize runs with a real instrumented executor on a 4-function "
+                "module over a seeded sample of the enumerated suites (1-2 test cases, each 1-2 (thorough 3) call blocks out of 6 "
+                "that cover different branches and overlap between tests), with and without assertions, under CASE/SUITE/COMBINED "
+                "x FORWARD/BACKWARD; afterwards the coverage of every optimised function is re-measured by executing the "
+                "minimized tests in fresh chromosomes and must equal the original, no foreign statement may appear, and asserted "
+                "statements of kept test cases must survive.",
+        "technique": "bounded contract check on enumerated small suites (the minimization visitors drive the executor and libcst "
+                     "test cases: outside the verifier's subset; the ghost-coverage proof planned in DESIGN.md is not built)",
+        "note": "no unbounded claim. Known finding (recorded): a suite of tests that never call the module under test is minimized "
+                "to the empty suite, for which the coverage functions report 0.0 instead of the import-time coverage. The SUITE "
+                "strategy removing a whole redundant test case (with its assertions) is treated as intended.",
+    },
 }
